@@ -143,7 +143,7 @@ func TestBinaryExpiryConfig(t *testing.T) {
 			return false
 		}
 		if !waitFor("first heartbeat", func(fl [][]string) bool { return len(fl) >= 2 }) {
-			vt.Fail(t, "C09:binary-not-serving", "gostatsd %v did not flush the heartbeat within 60s; output: %v", args, tail(snapshot(), 8))
+			notServing(t, fmt.Sprintf("gostatsd %v did not flush the heartbeat within 60s; output: %v", args, tail(snapshot(), 8)))
 		}
 		conn.Write([]byte("verif.c:3|c\nverif.g:5|g\nverif.s:m|s\nverif.t:7|ms"))
 		has := func(fl []string, typ string) bool {
@@ -163,11 +163,11 @@ func TestBinaryExpiryConfig(t *testing.T) {
 			}
 			return first >= 0
 		}) {
-			vt.Fail(t, "C09:binary-not-serving", "gostatsd %v never reported the datapoints; output: %v", args, tail(snapshot(), 8))
+			notServing(t, fmt.Sprintf("gostatsd %v never reported the datapoints; output: %v", args, tail(snapshot(), 8)))
 		}
 		const later = 40 // flushes after the first report: at least ~3.8 s at 100 ms, far beyond 400 ms
 		if !waitFor("40 more flushes", func(fl [][]string) bool { return len(fl) >= first+later+3 }) {
-			vt.Fail(t, "C09:binary-not-serving", "gostatsd %v stopped flushing; output: %v", args, tail(snapshot(), 8))
+			notServing(t, fmt.Sprintf("gostatsd %v stopped flushing; output: %v", args, tail(snapshot(), 8)))
 		}
 		fl := flushes(snapshot())
 		window := append(append([]string{}, fl[first+later]...), fl[first+later+1]...)
@@ -204,4 +204,148 @@ func tail(l []string, n int) []string {
 		return l[len(l)-n:]
 	}
 	return l
+}
+
+// TestBinaryTimestampAtArrival: a datapoint's age counts from its arrival. The command runs with a 2 s expiry for every
+// type; the harness stays silent for longer than that, then sends one datapoint per type. Each series must be reported
+// beyond the flush that carries its data. The only assertion is load-proof: a complete flush that lacks the series and
+// is *observed* less than 1 s after the datapoint was sent means the series expired although it was not even 1 s old.
+func TestBinaryTimestampAtArrival(t *testing.T) {
+	bin := os.Getenv("GOSTATSD_BIN")
+	if bin == "" {
+		t.Skip("GOSTATSD_BIN not set (the driver builds it)")
+	}
+	rapid.Check(t, func(t *rapid.T) {
+		quiet := time.Duration(rapid.SampledFrom([]int{2300, 2600, 3000}).Draw(t, "quiet-ms")) * time.Millisecond
+		readers := rapid.SampledFrom([]int{1, 2}).Draw(t, "max-readers")
+		pc, err := net.ListenPacket("udp", "127.0.0.1:0")
+		if err != nil {
+			t.Skip("no loopback socket")
+		}
+		addr := pc.LocalAddr().String()
+		pc.Close()
+		args := []string{"--backends", "stdout", "--metrics-addr", addr, "--flush-interval", "100ms", "--statser-type", "null", "--max-workers", "1",
+			"--max-readers", fmt.Sprint(readers), "--expiry-interval", "2s"}
+		cmd := exec.Command(bin, args...)
+		cmd.Env = append(os.Environ(), "AWS_CA_BUNDLE=")
+		out, err := cmd.StderrPipe()
+		if err != nil {
+			t.Fatalf("pipe: %v", err)
+		}
+		cmd.Stdout = cmd.Stderr
+		if err := cmd.Start(); err != nil {
+			t.Fatalf("start %s: %v", bin, err)
+		}
+		type stamped struct {
+			line string
+			at   time.Time
+		}
+		var mu sync.Mutex
+		var lines []stamped
+		readerDone := make(chan struct{})
+		go func() {
+			defer close(readerDone)
+			sc := bufio.NewScanner(out)
+			sc.Buffer(make([]byte, 1<<20), 1<<20)
+			for sc.Scan() {
+				mu.Lock()
+				lines = append(lines, stamped{sc.Text(), time.Now()})
+				mu.Unlock()
+			}
+		}()
+		defer func() {
+			cmd.Process.Kill()
+			cmd.Wait()
+			<-readerDone
+		}()
+		conn, err := net.Dial("udp", addr)
+		if err != nil {
+			t.Skip("dial: " + err.Error())
+		}
+		defer conn.Close()
+		snapshot := func() []stamped {
+			mu.Lock()
+			defer mu.Unlock()
+			return append([]stamped(nil), lines...)
+		}
+		const hb = "stats.counter.verif.hb."
+		// wait until the command serves: heartbeats until one is reported
+		serving := false
+		for deadline := time.Now().Add(60 * time.Second); time.Now().Before(deadline) && !serving; time.Sleep(20 * time.Millisecond) {
+			conn.Write([]byte("verif.hb:1|c"))
+			for _, l := range snapshot() {
+				serving = serving || strings.Contains(l.line, hb)
+			}
+		}
+		if !serving {
+			notServing(t, fmt.Sprintf("gostatsd %v did not report the heartbeat within 60s", args))
+		}
+		time.Sleep(quiet) // nothing arrives: the readers sit in their blocking read
+		mark := len(snapshot())
+		sent := time.Now()
+		conn.Write([]byte("verif.c:3|c\nverif.g:5|g\nverif.s:m|s\nverif.t:7|ms"))
+		stop := make(chan struct{})
+		defer close(stop)
+		go func() {
+			for {
+				select {
+				case <-stop:
+					return
+				case <-time.After(30 * time.Millisecond):
+					conn.Write([]byte("verif.hb:1|c"))
+				}
+			}
+		}()
+		prefix := map[string]string{"counter": "stats.counter.verif.c.", "gauge": "stats.gauge.verif.g.", "set": "stats.set.verif.s.", "timer": "stats.timers.verif.t."}
+		// observe for 1.2 s: flushes are delimited by the heartbeat's count line
+		// The lines of one flush come in no particular order, so the heartbeat's line cuts the output into blocks that each
+		// hold the end of one flush and the beginning of the next; two consecutive blocks always contain one whole flush.
+		seen := map[string]bool{}
+		for time.Since(sent) < 1200*time.Millisecond {
+			time.Sleep(25 * time.Millisecond)
+			l := snapshot()[mark:]
+			var cur []stamped
+			absent := map[string]int{} // consecutive blocks without the series, after it was seen
+			for _, x := range l {
+				cur = append(cur, x)
+				if !(strings.Contains(x.line, hb) && strings.Contains(x.line, ".count ")) {
+					continue
+				}
+				for typ, p := range prefix {
+					has := false
+					for _, y := range cur {
+						has = has || strings.Contains(y.line, p)
+					}
+					switch {
+					case has:
+						seen[typ] = true
+						absent[typ] = 0
+					case seen[typ]:
+						absent[typ]++
+						if absent[typ] >= 2 && x.at.Sub(sent) < time.Second {
+							vt.Fail(t, "C09:missing-before-expiry", "gostatsd %v: after %v of silence a %s datapoint was sent; a whole flush observed %v later no longer reports the series although its expiry interval is 2s", args, quiet, typ, x.at.Sub(sent).Round(time.Millisecond))
+						}
+					}
+				}
+				cur = nil
+			}
+		}
+		for typ := range prefix {
+			if !seen[typ] {
+				ev.C().Excluded("binary-datapoint-not-seen-within-1.2s", 1)
+			}
+		}
+		ev.C().Case(fmt.Sprintf("BINQ|%v|%d", quiet, readers), true, "binary-quiet-then-data")
+		if ev.C().WantSample() {
+			ev.C().Sample(map[string]interface{}{"gostatsd_args": strings.Join(args, " "), "quiet": quiet.String()})
+		}
+	})
+}
+
+// notServing ends a case in which the command did not come up or stopped flushing: that is a problem of the run (a port
+// taken by a neighbour between probing and binding, an overloaded machine), not something these tests decide.
+func notServing(t *rapid.T, why string) {
+	ev.C().Excluded("binary-not-serving", 1)
+	fmt.Fprintln(os.Stderr, "C09 binary job, case skipped:", why)
+	t.Skip("gostatsd command not serving")
 }
